@@ -47,7 +47,7 @@ type c11Case struct {
 // C11: listing is complete, duplicate-free and ordered for any prefix / delimiter / page size.
 func runC11(run *common.Run) {
 	maxSize := run.N(4, 5)
-	run.Rule = fmt.Sprintf("sub-space 'exh' (enumerated COMPLETELY, exhaustive=true refers to it): every subset of size <= %d of the name universe %q x prefixes %q x delimiters %q, and of the nested sibling-directory universe %q x prefixes %q x delimiters %q (file store: the subsets representable as files), x maxResults 1..n+1 and unset x both stores, the token chain followed to its end (more than n+2 pages is a violation); 'rand': random larger subsets of either universe and of their union, and tree-shaped sets (8 names of depth 2-3 built from directory components that extend one another: v1, v1.2, v1-b, v10, v1!, ...) with prefixes / delimiters cut from the names; 'big' (thorough): random 12-name buckets over the alphabet {a,b,/,.,-,0} with prefixes/delimiters cut from the names. Oracle per pagination: concatenated items == model items, concatenated prefixes == model prefixes (each once, ascending), items+prefixes per page <= maxResults, every item's JSON == the metadata GET of that name; plus malformed tokens / maxResults => 400, missing bucket => 404. Case = one (name set, store). Non-trivial = at least one pagination of the case needed >= 2 pages and at least one listing returned a collapsed prefix; distinct by name set x store.", maxSize, c11Universe, c11Prefixes, c11Delims, c11Universe2, c11Prefixes2, c11Delims2)
+	run.Rule = fmt.Sprintf("sub-space 'exh' (enumerated COMPLETELY, exhaustive=true refers to it): every subset of size <= %d of the name universe %q x prefixes %q x delimiters %q, and of the nested sibling-directory universe %q x prefixes %q x delimiters %q (file store: the subsets representable as files), x maxResults 1..n+1 and unset x both stores, the token chain followed to its end (more than n+2 pages is a violation); 'rand': random larger subsets of either universe and of their union, and tree-shaped sets (8 names of depth 2-3 built from directory components that extend one another: v1, v1.2, v1-b, v10, v1!, ...) with prefixes / delimiters cut from the names; 'big' (thorough): random 12-name buckets over the alphabet {a,b,/,.,-,0} with prefixes/delimiters cut from the names. ; 'large' (both tiers, both stores): one bucket of 2300-2900 names (thorough: 3 buckets of up to 4600) - flat names, 12-30 directories of 25-45 files with sibling names sorting between them, a second flat group; group sizes drawn per seed so that the 1000th / 2000th name falls into different groups - uploaded in random order and listed with maxResults in {unset (default page size), 1 (first 60 pages), 7, 300, 999, 1000, 1001, 1200, 5000, one random size 2-60, one random size 400-2500} x 11 prefix/delimiter pairs (none, '/', prefixes cutting into the directory / flat groups, a multi-character delimiter, a prefix matching nothing), every chain followed to its end (small sizes: bounded number of pages, then the beginning of the answer is compared). Oracle per pagination: concatenated items == model items, concatenated prefixes == model prefixes (each once, ascending), items+prefixes per page <= maxResults, every item's JSON == the metadata GET of that name; plus malformed tokens / maxResults => 400, missing bucket => 404. Case = one (name set, store). Non-trivial = at least one pagination of the case needed >= 2 pages and at least one listing returned a collapsed prefix; distinct by name set x store.", maxSize, c11Universe, c11Prefixes, c11Delims, c11Universe2, c11Prefixes2, c11Delims2)
 	run.Assumptions = []string{
 		"listing model from the statement: bytewise ascending names, prefix filter, collapse at the first delimiter after the prefix",
 		"file store: only name sets representable as files (no name that is a directory of another, no trailing '/')",
@@ -100,6 +100,15 @@ func runC11(run *common.Run) {
 		}
 	}
 	nExh := len(cases)
+	// 'large': one bucket per store whose listing needs several default-sized pages; run first, they take longest
+	nLarge := run.N(1, 3)
+	var largeCases []c11Case
+	for i := 0; i < nLarge; i++ {
+		for s, store := range drive.Stores {
+			largeCases = append(largeCases, c11Case{sub: "large", idx: i*2 + s, store: store})
+		}
+	}
+	cases = append(largeCases, cases...)
 	cutQueries := func(r *common.Rand, names []string) (pfx, dlm []string) {
 		pfx, dlm = []string{"", "d/"}, []string{"", "/"}
 		for q := 0; q < 5; q++ {
@@ -221,7 +230,11 @@ func runC11(run *common.Run) {
 				srvs[c.store] = s
 			}
 			j.Begin(w, fmt.Sprintf("C11 %s case=%d store=%s names=%q seed=%d", c.sub, c.idx, c.store, c.names, run.Seed))
-			c11Run(run, srvs[c.store], c, ci)
+			if c.sub == "large" {
+				c11Large(run, srvs[c.store], c)
+			} else {
+				c11Run(run, srvs[c.store], c, ci)
+			}
 			j.End(w)
 		}
 	})
@@ -391,6 +404,216 @@ func c11Run(run *common.Run, srv *drive.Server, c c11Case, ci int) {
 	if ci%997 == 5 {
 		run.Sample(map[string]any{"store": c.store, "names": c.names, "last_listings": log[max(0, len(log)-3):]})
 	}
+}
+
+// c11LargeNames builds a name set of 2300-2900 names (thorough: up to 4600) in three groups whose sizes are drawn
+// so that the 1000th, 2000th ... name in bytewise order falls into different groups from seed to seed: flat names
+// "a-NNNNN", names in 12-30 "directories" "dir-NN/fNNN" (plus "dir-NN.x" siblings sorting between the directories) and
+// flat names "obj/NNNNN" and "zz NNNN".
+func c11LargeNames(r *common.Rand, thorough bool) []string {
+	var names []string
+	na, nd, per, no := r.Range(300, 900), r.Range(12, 30), r.Range(25, 45), r.Range(700, 1100)
+	if thorough {
+		no += r.Range(500, 1700)
+	}
+	for i := 0; i < na; i++ {
+		names = append(names, fmt.Sprintf("a-%05d", i*3))
+	}
+	for d := 0; d < nd; d++ {
+		for f := 0; f < per; f++ {
+			names = append(names, fmt.Sprintf("dir-%02d/f%03d", d, f))
+		}
+		if d%4 == 1 {
+			names = append(names, fmt.Sprintf("dir-%02d.x", d), fmt.Sprintf("dir-%02d/sub/deep", d))
+		}
+	}
+	for i := 0; i < no; i++ {
+		names = append(names, fmt.Sprintf("obj/%05d", i))
+	}
+	for i, k := 0, 2300-len(names); i < k; i++ { // at least 2300 in every draw
+		names = append(names, fmt.Sprintf("zz %04d", i))
+	}
+	for i := 0; i < 40; i++ {
+		names = append(names, fmt.Sprintf("zz-tail-%02d", i))
+	}
+	return names
+}
+
+// c11Large lists one large bucket (several pages at the default page size) with page sizes around and far from the
+// default, with and without prefix / delimiter, and compares every complete pagination with the listing model.
+func c11Large(run *common.Run, srv *drive.Server, c c11Case) {
+	cl := srv.Client
+	r := run.Rand("C11.large", c.idx/2) // the same name set on both stores
+	names := c11LargeNames(r, run.IsThorough())
+	sorted := append([]string(nil), names...)
+	sort.Strings(sorted)
+	n := len(names)
+	b := fmt.Sprintf("large%d-%s", c.idx, c.store)
+	var log []string
+	fail := func(what string) {
+		run.Violation(c.sub, c.idx, what, map[string]any{"store": c.store, "names_total": n, "names_at_1000_boundaries": boundaryNames(sorted), "requests": log})
+	}
+	defer func() {
+		for k, v := range cl.Counts() {
+			run.Count(k, v)
+		}
+	}()
+	if rsp := cl.CreateBucket(b); !rsp.OK() {
+		fail("bucket creation failed: " + rsp.String())
+		return
+	}
+	upl := append([]string(nil), names...)
+	common.Shuffle(r, upl)
+	for _, nm := range upl {
+		if rsp := cl.UploadMedia(b, nm, "text/plain", []byte(nm), false, nil); !rsp.OK() {
+			fail(fmt.Sprintf("upload of %q failed: %s", nm, rsp))
+			return
+		}
+	}
+	metaOf := map[string]string{}
+	for _, nm := range names {
+		rsp := cl.GetMeta(b, nm)
+		m, err := rsp.JSON()
+		if rsp.Status != 200 || err != nil {
+			fail(fmt.Sprintf("metadata GET of %q failed: %s", nm, rsp))
+			return
+		}
+		metaOf[nm] = canonJSON(m)
+	}
+	type query struct{ pfx, dlm string }
+	queries := []query{{"", ""}, {"", "/"}, {"dir-", ""}, {"dir-", "/"}, {"dir-0", "/f"}, {"obj/", ""}, {"obj/0", "/"}, {"a-0", ""}, {"dir-05/", "/"}, {"", "-"}, {"nothing-here", ""}}
+	// maxResults: 0 = unset (default page size). Small sizes are followed for a bounded number of pages only.
+	sizes := []int{0, 1, 7, 300, 999, 1000, 1001, 1200, 5000, r.Range(2, 60), r.Range(400, 2500)}
+	multiPage, collapsed := false, false
+	for qi, q := range queries {
+		wantItems, wantPrefixes := model.List(names, q.pfx, q.dlm)
+		entries := len(wantItems) + len(wantPrefixes)
+		for _, mr := range sizes {
+			if qi >= 4 && (mr == 1 || mr == 999 || mr == 1001) {
+				continue // the full size set on the four main queries, a thinner one on the others
+			}
+			maxPages := entries + 3
+			partial := false
+			if mr == 1 && entries > 60 {
+				maxPages, partial = 60, true
+			}
+			if mr > 1 && mr < 60 && entries/mr > 400 {
+				maxPages, partial = 400, true
+			}
+			pages, trunc, err := cl.ListAll(b, q.pfx, q.dlm, mr, maxPages)
+			desc := fmt.Sprintf("list prefix=%q delimiter=%q maxResults=%d (0 = unset): %d pages", q.pfx, q.dlm, mr, len(pages))
+			for i, p := range pages {
+				if i < 3 || i >= len(pages)-2 {
+					first, last := "", ""
+					if len(p.Names) > 0 {
+						first, last = p.Names[0], p.Names[len(p.Names)-1]
+					}
+					desc += fmt.Sprintf(" | page %d: %d, %d items %q..%q, %d prefixes, token=%v", i, p.Status, len(p.Names), first, last, len(p.Prefixes), p.Token != "")
+				}
+			}
+			log = append(log, desc)
+			if len(log) > 8 {
+				log = log[len(log)-8:]
+			}
+			if err != nil {
+				fail(desc + ": " + err.Error())
+				return
+			}
+			if last := pages[len(pages)-1]; last.Status != 200 {
+				fail(fmt.Sprintf("%s: status %d", desc, last.Status))
+				return
+			}
+			if trunc && !partial {
+				fail(fmt.Sprintf("%s: the token chain did not end within %d pages although the listing has only %d entries", desc, maxPages, entries))
+				return
+			}
+			var gotItems, gotPrefixes []string
+			for i, p := range pages {
+				if mr > 0 && len(p.Names)+len(p.Prefixes) > mr {
+					fail(fmt.Sprintf("%s: page %d holds %d entries > maxResults", desc, i, len(p.Names)+len(p.Prefixes)))
+					return
+				}
+				gotItems = append(gotItems, p.Names...)
+				gotPrefixes = append(gotPrefixes, p.Prefixes...)
+				for k, it := range p.Items {
+					if got := canonJSON(it); got != metaOf[p.Names[k]] {
+						fail(fmt.Sprintf("%s: item %q differs from its metadata GET: item %s, GET %s", desc, p.Names[k], got, metaOf[p.Names[k]]))
+						return
+					}
+				}
+				if len(p.Prefixes) > 0 {
+					collapsed = true
+				}
+			}
+			if trunc {
+				// a bounded walk along the chain: what was seen so far must be the beginning of the complete answer
+				wi, wp := wantItems, wantPrefixes
+				if len(gotItems) <= len(wi) {
+					wi = wi[:len(gotItems)]
+				}
+				if len(gotPrefixes) <= len(wp) {
+					wp = wp[:len(gotPrefixes)]
+				}
+				if msg := seqDiff("items", gotItems, wi); msg != "" {
+					fail(desc + " (first " + fmt.Sprint(len(pages)) + " pages): " + msg)
+					return
+				}
+				if msg := seqDiff("prefixes", gotPrefixes, wp); msg != "" {
+					fail(desc + " (first " + fmt.Sprint(len(pages)) + " pages): " + msg)
+					return
+				}
+				run.Count("large_bounded_paginations", 1)
+			} else {
+				if msg := seqDiff("items", gotItems, wantItems); msg != "" {
+					fail(desc + ": " + msg)
+					return
+				}
+				if msg := seqDiff("prefixes", gotPrefixes, wantPrefixes); msg != "" {
+					fail(desc + ": " + msg)
+					return
+				}
+				run.Count("large_complete_paginations", 1)
+			}
+			if len(pages) >= 2 {
+				multiPage = true
+			}
+			run.Count("pages_followed", int64(len(pages)))
+			run.Count("listings", 1)
+			run.Count("large_entries_compared", int64(len(gotItems)+len(gotPrefixes)))
+		}
+	}
+	run.Count("large_buckets", 1)
+	run.Count("large_bucket_objects", int64(n))
+	run.Case(common.Hash64("large", c.store, fmt.Sprint(n), sorted[n/2]), multiPage && collapsed)
+	if c.idx < 2 {
+		run.Sample(map[string]any{"sub": "large", "store": c.store, "objects": n, "names_at_1000_boundaries": boundaryNames(sorted), "last_listings": log[max(0, len(log)-2):]})
+	}
+}
+
+// boundaryNames are the names around every 1000th position of the bytewise order (for violation reports).
+func boundaryNames(sorted []string) []string {
+	var out []string
+	for i := 1000; i < len(sorted); i += 1000 {
+		out = append(out, fmt.Sprintf("#%d=%q #%d=%q", i, sorted[i-1], i+1, sorted[i]))
+	}
+	return out
+}
+
+// seqDiff compares two name sequences and describes the first difference compactly (the sequences are long).
+func seqDiff(what string, got, want []string) string {
+	for i := 0; i < len(got) && i < len(want); i++ {
+		if got[i] != want[i] {
+			prev := ""
+			if i > 0 {
+				prev = got[i-1]
+			}
+			return fmt.Sprintf("%s differ at position %d: got %q (after %q), want %q; %d listed, %d expected", what, i+1, got[i], prev, want[i], len(got), len(want))
+		}
+	}
+	if len(got) != len(want) {
+		return fmt.Sprintf("%s: %d listed, %d expected (the common beginning is equal)", what, len(got), len(want))
+	}
+	return ""
 }
 
 // runs one fixed listing and reports whether it deviates from the model
